@@ -628,20 +628,44 @@ func seenComp(f *Frame, rng *ssa.Range) string {
 }
 
 // runDefers applies deferred calls in LIFO order.
+func (f *Frame) deferFlag(d *ssa.Defer) string {
+	for i, x := range f.defers {
+		if x == d {
+			return fmt.Sprintf("GHdefer_%s%d", sanitize(f.prefix), i)
+		}
+	}
+	return "GHdefer_" + sanitize(f.prefix) + "x"
+}
+
 func (f *Frame) runDefers() {
 	e := f.e
+	// LIFO over the defer statements of the function; each runs only if it was registered on this path.
+	// (A defer statement inside a loop registers at most one call in this model.)
 	for i := len(f.defers) - 1; i >= 0; i-- {
 		d := f.defers[i]
+		flag := e.comp(f.st, f.deferFlag(d), "Bool")
+		if flag == "false" {
+			continue
+		}
+		if flag == "true" {
+			f.call(d, &d.Call, nil)
+			continue
+		}
+		st0, r0 := f.st.clone(), f.reach
+		f.reach = e.define(f.prefix+"dr", "Bool", fmt.Sprintf("(and %s %s)", r0, flag))
 		f.call(d, &d.Call, nil)
+		skip := e.define(f.prefix+"dr", "Bool", fmt.Sprintf("(and %s (not %s))", r0, flag))
+		conds := []string{f.reach, skip}
+		f.st = e.mergeStates(conds, []*State{f.st, st0})
+		f.reach = e.define(f.prefix+"dr", "Bool", fmt.Sprintf("(or %s %s)", conds[0], conds[1]))
 	}
-	_ = e
 }
 
 // frameFact: every location of component comp that was allocated at entry and is not listed in
 // excl is unchanged between states a (entry) and b.
 func (e *Enc) frameFact(comp string, a, b *State, excl []string) string {
-	if strings.HasPrefix(comp, "GHseen_") {
-		return "" // ghost iteration state, not program memory
+	if strings.HasPrefix(comp, "GHseen_") || strings.HasPrefix(comp, "GHdefer_") {
+		return "" // ghost iteration / defer-registration state, not program memory
 	}
 	sortName := e.comps[comp]
 	ta, tb := e.comp(a, comp, sortName), e.comp(b, comp, sortName)
